@@ -199,6 +199,6 @@ func init() {
 			}
 			return out
 		},
-		Rule: "delay filter: delays {0, 500us, 10ms} x arrival scripts of 3 (thorough 4) datagrams with gaps {0, d/2, d, 2d} x every interleaving of the Run loop, the arrival path and timer expiries within the deviation bound, under legacy and go1.23 channel-timer semantics; router: MinDelay {0,1ms,20ms} x MaxJitter {0,1ms} (jitter draws {0,max-1}) x write gaps x schedules; forwarding stamps are taken in a recording NIC on the virtual clock",
+		Rule:        "delay filter: delays {0, 500us, 10ms} x arrival scripts of 3 (thorough 4) datagrams with gaps {0, d/2, d, 2d} x every interleaving of the Run loop, the arrival path and timer expiries within the deviation bound, under legacy and go1.23 channel-timer semantics; router: MinDelay {0,1ms,20ms} x MaxJitter {0,1ms} (jitter draws {0,max-1}) x write gaps x schedules; forwarding stamps are taken in a recording NIC on the virtual clock",
 		Assumptions: []string{"a thread stalled for an arbitrary time is one deviation (the clock may pass a deadline while the loop has not run)", "time.Minute idle re-arms lie beyond the 30 s horizon and never fire"}})
 }
